@@ -1,6 +1,8 @@
 SPECIFICATION Spec
 CONSTANTS MaxLen = 3 MaxN = 5 Infinite = TRUE MaxOut = 4
+  Vals = "nat" Stops = FALSE MaxRuns = 1
   Alphabet <- AlphaC02
+  Must <- NoMust
   Pairs <- OnlyPairs
 INVARIANT OpEqDen
 INVARIANT OutIsPrefix
@@ -8,5 +10,6 @@ INVARIANT NoWorkBeforeDemand
 INVARIANT PullOnlyWhenDrained
 INVARIANT LazyEqDen
 INVARIANT Buffers
+INVARIANT SliceIsPySlice
 CONSTRAINT Bounded
 CHECK_DEADLOCK FALSE
